@@ -275,3 +275,26 @@ def num(rng, v):
     if r < 0.85 and float(v).is_integer():
         return int(v)
     return np.array(float(v))[()]
+
+
+def maybe_int_data(rng, X, kw, p=0.25, scale=3):
+    """with probability p: the same trajectory as quantised integer samples (sensor counts) in an integer array - states
+    and inputs scaled alike, so the underlying linear system is unchanged"""
+    if rng.random() >= p:
+        return X, None
+    e = 1 if kw.get('episode_feature') else 0
+    Y = np.array(X, dtype=float)
+    Y[:, e:] = np.round(Y[:, e:] * scale)
+    if np.max(np.abs(Y[:, e:])) > 40:
+        return X, None          # (diverging trajectories: keep the float data, large integers only slow the solver down)
+    form = 'integer dtype'
+    if e and rng.random() < 0.6:
+        # one episode handed over WITHOUT an episode column (with one, the episode bookkeeping turns the matrix into
+        # float64 before the regressor sees it); kw is updated in place
+        labels, counts = np.unique(Y[:, 0], return_counts=True)
+        keep = labels[np.argmax(counts)]
+        if np.max(counts) >= 8:
+            Y = Y[Y[:, 0] == keep][:, 1:]
+            kw['episode_feature'] = False
+            form = 'integer dtype, no episode feature'
+    return Y.astype(rng.choice(['int64', 'int32'])), form
